@@ -400,6 +400,94 @@ def replay(obligation, model, rep):
             "detail": "counter-models of the framing contracts are replayed by the native frame round trip"}
 
 
+def _chunked_process():
+    """Start the real server process (fortls.main, as the console script does) and deliver one correctly framed request
+    whose body arrives in two pipe writes: a conforming peer may split a frame anywhere (bounded: one cut, one delay)."""
+    import json, os, subprocess, sys, threading, time, queue
+    import fortls
+    from replay.harness import Workspace
+    ws = Workspace({"m.f90": "module m\n  integer :: alpha\nend module m\n"})
+    env = dict(os.environ)
+    env["PYTHONPATH"] = os.path.dirname(os.path.dirname(os.path.abspath(fortls.__file__))) + os.pathsep + env.get("PYTHONPATH", "")
+    child = "import sys; sys.argv = ['fortls', '--incremental_sync']; import fortls; fortls.main()"
+    proc = subprocess.Popen([sys.executable, "-c", child], stdin=subprocess.PIPE, stdout=subprocess.PIPE,
+                            stderr=subprocess.DEVNULL, cwd=ws.root, bufsize=0, env=env)
+    out = queue.Queue()
+
+    def frame(msg):
+        body = json.dumps(msg).encode("utf-8")
+        return b"Content-Length: %d\r\n\r\n" % len(body) + body
+
+    def reader(stream):
+        try:
+            while True:
+                length = None
+                while True:
+                    line = stream.readline()
+                    if not line:
+                        out.put(None)
+                        return
+                    if line == b"\r\n":
+                        break
+                    name, _, value = line.partition(b":")
+                    if name.strip().lower() == b"content-length":
+                        length = int(value.strip())
+                body = b""
+                while len(body) < length:
+                    chunk = stream.read(length - len(body))
+                    if not chunk:
+                        out.put(None)
+                        return
+                    body += chunk
+                out.put(json.loads(body.decode("utf-8")))
+        except Exception:
+            out.put(None)
+
+    def wait_for(rid, timeout):
+        end = time.time() + timeout
+        seen = []
+        while time.time() < end:
+            try:
+                msg = out.get(timeout=max(0.05, end - time.time()))
+            except queue.Empty:
+                break
+            if msg is None:
+                return None, seen + ["<server closed its output>"]
+            if msg.get("id") == rid:
+                return msg, seen
+            seen.append(msg)
+        return None, seen + ["<timeout>"]
+
+    threading.Thread(target=reader, args=(proc.stdout,), daemon=True).start()
+    try:
+        proc.stdin.write(frame({"jsonrpc": "2.0", "id": 1, "method": "initialize", "params": {"rootPath": ws.root}}))
+        resp, seen = wait_for(1, 120)
+        if resp is None:
+            # the process could not be started or initialised here: nothing is decided about chunking
+            return None
+        data = frame({"jsonrpc": "2.0", "id": 2, "method": "workspace/symbol", "params": {"query": "alpha"}})
+        cut = len(data) - 20
+        proc.stdin.write(data[:cut])
+        time.sleep(0.5)
+        try:
+            proc.stdin.write(data[cut:])
+        except (BrokenPipeError, OSError):
+            pass
+        resp, seen = wait_for(2, 60)
+        if resp is None or "result" not in resp:
+            return {"scenario": "one request whose body is delivered in two pipe writes 0.5 s apart to the real process",
+                    "frame": data.decode("utf-8"), "first_chunk_bytes": cut, "response": resp,
+                    "other_messages": [str(m)[:200] for m in seen]}
+        return None
+    finally:
+        try:
+            proc.kill()
+        except Exception:
+            pass
+        proc.wait()
+        ws.close()
+
+
 def search(func, tier, seed, obligation=""):
     return _frames_roundtrip()
 
@@ -428,10 +516,15 @@ def extra(repo, reg, tier, seed):
     env = {}
     ok = shape.has(shape.normalise(fi.node), "stdin, stdout = sys.stdin.buffer, sys.stdout.buffer", shape.Free({"stdin", "stdout"}), env)
     ok = ok and shape.has(shape.normalise(fi.node), f"ReadWriter({env.get('stdin', 'stdin')}, {env.get('stdout', 'stdout')})")
+    wch = _chunked_process()
     items.append(Item("C16/main/effects.binary_streams", "proved" if ok else "refuted", "structural", 0.0,
                       where=fi.where(), mode="table", func=fi.qualname,
                       detail="the server is connected to sys.stdin.buffer / sys.stdout.buffer",
-                      witness=None if ok else {"found": src[:400]}))
+                      witness=None if ok else (wch or {"found": src[:400]}), confirmed=True if (wch and not ok) else None))
+    items.append(Item("C16/main/native_chunked_stdin", "refuted" if wch else "bounded-ok", "native-run(bounded)", 0.0,
+                      mode="bounded", func="fortls.main", witness=wch, confirmed=True if wch else None,
+                      detail="bounded: the real server process (fortls.main over OS pipes) is sent one request whose body "
+                             "arrives in two writes 0.5 s apart and must answer it (reads of the body may not be short)"))
     # URI round trip: bounded, exhaustive over short paths from an alphabet with the characters that matter
     import itertools
     from fortls.jsonrpc import path_from_uri, path_to_uri
